@@ -62,6 +62,9 @@ var Props = map[string]PropRunner{
 		RunE0(r, p)
 	},
 	"C08": func(r *Run) {
+		if r.Choose("golden?", 6) == 0 {
+			RunGolden(r)
+		}
 		p := e0Profile("C08", "C08")
 		p.CodecSwarm = true
 		p.Weights[opPublish] = 10
